@@ -48,6 +48,8 @@ public:
     LinPayload();
     LinPayload(const uint8_t* data, const size_t size);
 
+    bool isValid() const;
+
     const uint8_t* getData() const;
     void setData(const uint8_t* data, const uint8_t dataLength);
 
